@@ -54,6 +54,9 @@ func runC05(e *emitter, tier string, seed uint64) {
 		if !e.mine(k) {
 			return
 		}
+		// history: the same property and text first as a value the caller vouches for (emitted as it is), then as a plain
+		// string - what an earlier call was given must not decide what this one returns
+		_ = templ.SanitizeCSS(p, templ.SafeCSSProperty(v))
 		ip, iv := safehtml.SanitizeCSS(p, v)
 		tc := string(templ.SanitizeCSS(p, v))
 		m, err1 := templruntime.SanitizeStyleAttributeValues(map[string]string{p: v})
@@ -101,6 +104,7 @@ func runC05(e *emitter, tier string, seed uint64) {
 		"url(JaVaScRiPt:alert(1))", "url(\"javascript:alert(1)\")", "url(data:text/html,x)", "url(http://h/p)", "url(HTTPS://h/p)", "url(mailto:a@b)",
 		"url(//h/p)", "url(ftp://h)", "url(/a);color:red;x:url(b)", "url(/a)}body{x:url(b)", "url(/a),url(/b)", "url(/a) , url(\"/b\")", "url(/a), red",
 		"url(/a\\29 )", "url(/a b)", "url(/a\")", "url(\")", "url()", "url(", "url", "URL(/a)", "url(%zz)", "url(http://[::1]:namedport)", "url(http://a:b)",
+		"url(javascript:/%zz)", "url(\"javascript:/%zz\")", "url('vbscript:/%')", "url(/ok.png), url(data:/%x)", "url(javascript:/%/-alert`1`)", "url(/img/100%.png)", "url(x:/%)", "url(/a%2)", "url(http://h/%)",
 		"url(a:b)", "url(:a)", "url(#a:b)", "url(#\x01)", "url(/a#b\x7f)", "url(#\x01),url(/b)", "url(http://h/#\x0b)", "url(#a\x01)x", "url(/a#\x1f);color:red", "url(?a:b)", "url(a/b:c)", "url(\x01)", "url(/a\x7f)", "url(/a<)", "url(/a>)", "url(1a:b)", "url(a+b-c.d:e)",
 		"Arial", "Times New Roman", "sans-serif", "\"Helvetica Neue\"", "\"a\", Arial", "Arial, \"b c\"", "\"", "\"\"", "\"x\"; color: red; \"y\"",
 		"\"</style><script>alert(1)</script>\"", "\"a\\\"\"", "\"a\nb\"", "\"a;b\"", "\"a}b\"", "'Arial'", "Arial;", "A", "a1", "-a", "Arial,", ",", " Arial ",
